@@ -398,6 +398,8 @@ cdef class ParticleArray:
         tag_def_values = self.default_values['tag']
         self.default_values.clear()
         self.default_values = {'tag':tag_def_values, 'pid':0, 'gid':_UINT_MAX}
+        self.stride = {}
+        self.output_property_arrays = []
 
     cpdef set_time(self, double time):
         self.time = time
@@ -1415,6 +1417,7 @@ cdef class ParticleArray:
         if self.properties.has_key(prop_name):
             self.properties.pop(prop_name)
             self.default_values.pop(prop_name)
+            self.stride.pop(prop_name, None)
         if prop_name in self.output_property_arrays:
             self.output_property_arrays.remove(prop_name)
         if self.gpu is not None:
